@@ -318,12 +318,12 @@ func (x *fnv) runDefers(s *State, fr *frame) {
 }
 
 // runAts applies the at-clauses attached to a call of the named callee.
-func (x *fnv) runAts(s *State, callee string) {
+func (x *fnv) runAts(s *State, callee string, call *ast.CallExpr) {
 	if x.fc == nil || len(x.fc.Ats) == 0 {
 		return
 	}
-	x.callOrd[callee]++
-	n := x.callOrd[callee]
+	// the ordinal of a call site is its position in source order among the calls with the same callee text
+	n := x.callSiteOrd[call]
 	for _, at := range x.fc.Ats {
 		if at.Callee != callee || (at.Nth != 0 && at.Nth != n) {
 			continue
@@ -359,6 +359,13 @@ func (x *fnv) prepass(body *ast.BlockStmt) {
 		case *ast.ForStmt, *ast.RangeStmt:
 			n++
 			x.loopOrd[nd] = n
+		case *ast.CallExpr:
+			if x.callSiteOrd == nil {
+				x.callSiteOrd = map[*ast.CallExpr]int{}
+			}
+			name := types.ExprString(nd.Fun)
+			x.callOrd[name]++
+			x.callSiteOrd[nd] = x.callOrd[name]
 		case *ast.UnaryExpr:
 			if nd.Op == token.AND {
 				if id, ok := ast.Unparen(nd.X).(*ast.Ident); ok {
